@@ -103,6 +103,24 @@ theorem slot_in_window (cur send ts res hash : Nat) (hg : gapPos cur send = fals
       omega
     · omega
 
+/-- **Ring capacity.** The arithmetic that ties `superQueueLen`, `superQueueFutureSlots`, the literal in
+    gapInReceivingQueueLocked and the largest allowed resolution together (all four as regenerated from /repo): for EVERY event a
+    shard accepts (shouldDiscardIncomingData false, i.e. not stopping and gap ≤ 0) the target slot is below
+    SendTime + superQueueLen, so `slot % superQueueLen` never wraps onto a cell that is flushed before the slot's second —
+    and it is not below SendTime, so it never names a cell already flushed for this lap. -/
+theorem accepted_slot_within_ring (s : S) (ts res hash : Nat) (ha : AgentQueue.discard s = false) (hr : res ∈ allowedResolutions) :
+    slotOf (clampTs ts s.cur) res hash s.send < s.send + superQueueLen ∧ s.send ≤ slotOf (clampTs ts s.cur) res hash s.send := by
+  have hg : gapPos s.cur s.send = false := by
+    unfold AgentQueue.discard at ha
+    cases h1 : s.stop <;> cases h2 : gapPos s.cur s.send <;> simp_all
+  have := slot_in_window s.cur s.send ts res hash hg hr
+  exact ⟨this.2.1, this.1⟩
+
+/-- gapInReceivingQueueLocked with another literal in place of the 120 (to state what a changed literal would do) -/
+def gapWith (k cur send : Nat) : Int := (cur : Int) - ((send : Int) + ((W : Int) - (F : Int)) - (k : Int))
+
+theorem gapWith_K (cur send : Nat) : gapWith K cur send = gap cur send := rfl
+
 theorem keyTs_eq (cts res : Nat) : keyTs cts res = roundTs cts res := by
   unfold keyTs roundTs
   split
@@ -1068,6 +1086,12 @@ example : Pinned → gapPos 1005 1000 = false ∧ 60 ∈ allowedResolutions := b
 -- … and the gap bound is sharp: one more second of gap (gap = 1) and a 60 s row would wrap around the ring,
 -- i.e. land in a cell that is flushed `superQueueLen` seconds too early
 example : Pinned → gapPos 1197 1191 = true ∧ ¬ (slotOf (clampTs 1200 1197) 60 4294967295 1191 < 1191 + W) := by decide
+-- the same with the literal itself changed: with 119 in place of 120 the shard still accepts at CurrentTime - SendTime = 6
+-- (gap = 0), and a 60 s row with timestamp >= CurrentTime + 3 and a resolution hash in the last sub-slot gets slot =
+-- SendTime + superQueueLen, i.e. the cell that is flushed NEXT (at second SendTime, 128 s before the row's second)
+example : Pinned → gapWith 119 1197 1191 = 0 ∧ gapWith K 1197 1191 = 1 ∧
+    slotOf (clampTs 1200 1197) 60 4294967295 1191 = 1191 + superQueueLen ∧
+    slotOf (clampTs 1200 1197) 60 4294967295 1191 % superQueueLen = 1191 % superQueueLen := by decide
 -- … and so is the future clamp: without it (cts = ts = cur + 4) the same happens at gap = 0
 example : Pinned → gapPos 1196 1191 = false ∧ ¬ (slotOf 1200 60 4294967295 1191 < 1191 + W) := by decide
 
